@@ -123,6 +123,28 @@ theorem bigu32_roundtrip (c : Cfg) (hc : Proved c) (magic : Int) (rev : Bool) (v
   simp only [BitVec.toNat_add, BitVec.toNat_mul, BitVec.toNat_setWidth, BitVec.toNat_ofNat, h2]
   split at cz <;> omega
 
+/-- **Marshal is injective**: two bitmaps with the same serialized bytes are the same bitmap (no two sets share an
+    encoding, whichever of the two encodings each one uses) -/
+theorem marshal_injective (c : Cfg) (hc : Proved c) (magic : Int) (a b : Bit1024)
+    (h : marshal c magic a = marshal c magic b) : a = b := by
+  obtain ⟨bs, h1, h2⟩ := marshal_roundtrip c hc magic a
+  obtain ⟨bs', h1', h2'⟩ := marshal_roundtrip c hc magic b
+  rw [h, h1'] at h1
+  cases h1
+  rw [h2] at h2'
+  cases h2'
+  rfl
+/-- **`NewBigU32FromInt64` is injective on its documented range**: two in-range integers that build the same block are
+    the same integer (the block's start and single bit determine the value) -/
+theorem bigu32_injective (c : Cfg) (hc : Proved c) (magic : Int) (v w : BitVec 64)
+    (hv : 0 ≤ v.toInt ∧ v.toInt < 4398046510080) (hw : 0 ≤ w.toInt ∧ w.toInt < 4398046510080)
+    (h : newBigFromI64 v = newBigFromI64 w) : v = w := by
+  obtain ⟨blk, h1, h2⟩ := bigu32_roundtrip c hc magic false v hv 1 (by omega)
+  obtain ⟨blk', h1', h2'⟩ := bigu32_roundtrip c hc magic false w hw 1 (by omega)
+  rw [h, h1'] at h1
+  cases h1
+  rw [h2] at h2'
+  simpa using h2'
 /-- integers outside the documented range are rejected by the constructor -/
 theorem bigu32_rejects_out_of_range (v : BitVec 64) (hv : ¬(0 ≤ v.toInt ∧ v.toInt < 4398046510080)) :
     newBigFromI64 v = none := by
